@@ -39,6 +39,12 @@ BUILT = {
  "C18": dict(tech=WM + " with witness probes (spec/Sched.tla, MCSchedWitness.cfg)",
    text="Systems with exact realisable arrival models only; the bounds of FP-P, FP-NP (with the lower-priority blocker in the task set) and FIFO are recorded from the library, TLC explores every schedule with a completion-response variable and must reach, for every claimed task (FIFO: some task), a state in which a job completes with response time exactly R.",
    note="Existence is shown by an explicit reachable witness state per (system, task); bounds as C01."),
+ "C19": dict(tech=TV + ": groups of calls that model the same system must return the same result (TraceAnalyses.tla)",
+   text="For 21000 (thorough 200000) seeded random systems one of the seven agreement families of the property is exercised on the real analyses (LP(last=1,B=0)=P, LP(last=C,B)=NP(B), FNP(B)=LP(last=1,B), the three EDF analogues, equal deadlines => max NP-EDF = FIFO; ROS 2 supply equivalences and event source = FIFO in the ros2 stage); TLC accepts a record iff all results of the group are the same Ok value or all Err.",
+   note="Half of the systems use very small periods so that coinciding steps are frequent. A panic is 'no claim' here (C20 owns panics)."),
+ "C17": dict(tech=TV + " of hardening walks against the Mono state machine (TraceHarden.tla)",
+   text="Seeded random base systems are hardened one parameter at a time (WCET+1, jitter+, period-1, blocking+, interfering NP segment+1, task added, limit raised); after each step all nine dedicated-processor analyses (and in the ros2 stage the ROS 2 analyses incl. supply weakening) are re-run on the real library; TLC replays the recorded walk through the state machine whose Harden action demands res' >= res (Err on top) and whose RaiseLimit action demands that Ok results are unchanged.",
+   note="The task-under-analysis' own last non-preemptive segment is not treated as a hardening (DESIGN.md C17)."),
 }
 m = {"version": 1, "setup_cmd": "bin/vf setup",
      "hooks": {"guard": "--cfg rta_verif",
